@@ -111,7 +111,24 @@ func TypeTable(p *core.Prog, r *core.Report) {
 		{"[]interface{}", dyn(aSliceIface), "array", false, false, false},
 		{"map[string]interface{}", dyn(aMapIface), "object", false, false, false},
 	}
+	if Deep {
+		data = append(data,
+			ttDatum{"int(0)", in(aInt, 0), "integer", true, true, true},
+			ttDatum{"int8(-1)", in(aInt8, -1), "integer", true, true, true},
+			ttDatum{"int16(2)", in(aInt16, 2), "integer", true, true, true},
+			ttDatum{"uint8(3)", in(aUint8, 3), "integer", true, true, true},
+			ttDatum{"uint16(3)", in(aUint16, 3), "integer", true, true, true},
+			ttDatum{"uint32(3)", in(aUint32, 3), "integer", true, true, true},
+			ttDatum{"uint64(3)", in(aUint64, 3), "integer", true, true, true},
+			ttDatum{"float32(2)", fl(aFloat32, 2), "number", true, false, true},
+			ttDatum{"-0.5", fl(aFloat64, -0.5), "number", false, false, true},
+			ttDatum{"0.0", fl(aFloat64, 0), "number", true, false, true},
+		)
+	}
 	typeLists := [][]string{{"null"}, {"boolean"}, {"string"}, {"integer"}, {"number"}, {"array"}, {"object"}, {"string", "null"}, {"integer", "string"}}
+	if Deep {
+		typeLists = append(typeLists, []string{"number", "null"}, []string{"array", "object"}, []string{"boolean", "integer", "null"}, []string{"number", "integer"})
+	}
 	na := newNilAn(p)
 	var bad, undet []string
 	n := 0
